@@ -36,8 +36,10 @@ def perms : List α → List (List α)
 structure Script where
   calls : List (Bytes × Bytes × Nat)
   inputs : List (Bytes × Bytes)
+  /-- `WithInput()` is called after the first `wipos` `With` calls -/
+  wipos : Nat
 
-def parseScript (ks vs ls oks ovs : String) : Except String Script := do
+def parseScript (ks vs ls oks ovs : String) (wi : Option String := none) : Except String Script := do
   let some ks := hexList ks | throw "outside-domain: keys"
   let some vs := hexList vs | throw "outside-domain: values"
   let some ls := parseLevels ls | throw "outside-domain: levels"
@@ -47,13 +49,19 @@ def parseScript (ks vs ls oks ovs : String) : Except String Script := do
   let some inputs := zip2 oks ovs | throw "outside-domain: ragged input lists"
   if inputs.length > 4 then throw "outside-domain: too many old inputs"
   if (inputs.map (·.1)).eraseDups.length ≠ inputs.length then throw "outside-domain: duplicate old-input key"
-  pure ⟨calls, inputs⟩
+  let wipos ← match wi with
+    | none => pure calls.length
+    | some w => match (w.drop 2).toNat? with
+      | some p => if w.startsWith "wi" ∧ p ≤ calls.length then pure p else throw "outside-domain: WithInput position"
+      | none => throw "outside-domain: WithInput position"
+  pure ⟨calls, inputs, wipos⟩
 
 /-- model: messages after the `With` chain, then `WithInput` in the map order the implementation
     happened to use (recovered from the issued bytes; any permutation is legal) -/
 def modelMsgs (s : Script) (issued : Option Bytes) : List Msg :=
-  let fl := s.calls.foldl (fun ms c => withMsg ms c.1 c.2.1 c.2.2) []
-  let cands := (perms s.inputs).map fun p => withInput fl p
+  let withs (ms : List Msg) (cs : List (Bytes × Bytes × Nat)) := cs.foldl (fun ms c => withMsg ms c.1 c.2.1 c.2.2) ms
+  let fl := withs [] (s.calls.take s.wipos)
+  let cands := (perms s.inputs).map fun p => withs (withInput fl p) (s.calls.drop s.wipos)
   match cands.find? (fun ms => issueOnWire ms = issued) with
   | some ms => ms
   | none => cands.headD fl
@@ -76,7 +84,7 @@ def handleRtc (id : String) (s : Script) (issued c2 seen2 c3 seen3 : String) : E
   let flash := expectedFlash s.calls
   let old := expectedOld s.inputs
   let spec := specConforming flash old { issued := iss, c2 := c2v, seen2 := seen2, c3 := c3v, seen3 := seen3 }
-  let known := if Known.K1 false (flash ++ old) then some "K1" else none
+  let known := if Known.K1for spec false (flash ++ old) then some "K1" else none
   let tags := ["rtc", if ms = [] then "nomsgs" else "msgs"] ++ (if ms ≠ [] then ["nt-rtc"] else [])
   pure { id := id, modelObs := modelObs, implObs := implObs, spec := spec, known := known, tags := tags }
 
@@ -90,7 +98,7 @@ def handleRtt (id : String) (s : Script) (issued st2 seen2 exp2 st3 seen3 : Stri
   let flash := expectedFlash s.calls
   let old := expectedOld s.inputs
   let spec := specTransparent flash old { issued := iss, st2 := st2n, seen2 := seen2, exp2 := exp2 == "1", st3 := st3n, seen3 := seen3 }
-  let known := if Known.K1 true (flash ++ old) then some "K1" else none
+  let known := if Known.K1for spec true (flash ++ old) then some "K1" else none
   -- model of the exchange with a verbatim-copying client
   let (modelObs, tags) : String × List String :=
     match wire with
@@ -167,6 +175,10 @@ def handleCase (f : List String) : Except String Verdict := do
     handleRtc id (← parseScript ks vs ls oks ovs) issued c2 seen2 c3 seen3
   | [id, "rtt", ks, vs, ls, oks, ovs, issued, st2, seen2, exp2, st3, seen3] =>
     handleRtt id (← parseScript ks vs ls oks ovs) issued st2 seen2 exp2 st3 seen3
+  | [id, "rtc", ks, vs, ls, oks, ovs, wi, issued, c2, seen2, c3, seen3] =>
+    handleRtc id (← parseScript ks vs ls oks ovs (some wi)) issued c2 seen2 c3 seen3
+  | [id, "rtt", ks, vs, ls, oks, ovs, wi, issued, st2, seen2, exp2, st3, seen3] =>
+    handleRtt id (← parseScript ks vs ls oks ovs (some wi)) issued st2 seen2 exp2 st3 seen3
   | [id, "dec", cookies, steps, allocs] => handleDec id cookies steps allocs
   | _ => throw s!"outside-domain: unrecognised case shape ({f.length} fields)"
 
